@@ -185,7 +185,7 @@ func runCase(c *Case) (res string) {
 	case "key":
 		var parts []string
 		for _, r := range c.Doc.AllRefs() {
-			parts = append(parts, fmt.Sprintf("%016x", xpath.VerifHashKey(tree.At(r, true))))
+			parts = append(parts, hx(xpath.VerifNodeKey(tree.At(r, true))))
 		}
 		return "keys:" + strings.Join(parts, ",")
 	case "cache":
@@ -200,6 +200,8 @@ func runCase(c *Case) (res string) {
 		return runTmpl(c, tree)
 	case "wide":
 		return runWide(c)
+	case "growth":
+		return runGrowth(c, tree)
 	case "rxsel":
 		return runRxSel(c, tree)
 	case "ctx":
